@@ -4,7 +4,7 @@ Model of
 * `reader/controller/{queryRangeController,utils,promQueryRangeController,tempoController}.go` — how
   start/end/step/limit/direction/time are parsed (the stdlib parsers themselves are not modelled: the model starts
   from their outcome `Parsed`), defaults, units, and which HTTP status class each outcome gets;
-* `reader/service/queryRangeService.go prepareOutput` — seconds truncation, step in ms;
+* `reader/service/queryRangeService.go prepareOutput` — window in ns (no seconds truncation since the A25 fix), step in ms;
 * `reader/logql/logql_transpiler_v2/planner_from_fix.go` (`FixPeriodPlanner`), `planner_matrix_step.go`
   (`MatrixStepPlanner`, unreferenced code), `internal_planner/planner_generic_aggregator.go` + `planner_lra.go` /
   `planner_unwrap_agg.go` / `planner_agg_op.go` (`streamLen`, bucket index), `internal_planner/planner_limit.go`,
@@ -12,7 +12,7 @@ Model of
 with every Go run-time panic as an explicit `Fault` value at the expression that raises it, int64 arithmetic as
 two's-complement (`wrap`), and the goroutine that runs the code deciding what a fault means for the request.
 Core-only. -/
-namespace Qryn.Read
+namespace Qryn.ReadSide
 
 /-- Go run-time panics -/
 inductive Fault where
@@ -263,7 +263,8 @@ def lraCount (c : AggCode) (fromNs dur : Int) (len : Nat) : List Int → List Na
 
 /-- `OnAfterEntriesSlice`: state `sent`; result = (new sent, size of the batch forwarded if any, cancel called) -/
 def limitBatch (limit sent : Int) (n : Nat) : Except Fault (Int × Option Nat × Bool) :=
-  if limit ≤ sent then .ok (sent, none, false)
+  if limit = 0 then .ok (sent, some n, false)            -- limit 0 = no limit: forward everything
+  else if limit ≤ sent then .ok (sent, none, false)
   else if wrap (sent + n) < limit then .ok (wrap (sent + n), some n, false)
   else
     let k := wrap (limit - sent)
@@ -378,8 +379,8 @@ def lokiService (c : Code) (fromNs toNs stepMs : Int) (pl : Plan) (db : DbScript
   if pl.parseOk = false then .err5xx
   else if db.versionFails then .err5xx
   else
-    let fromT := (wrap (fromNs.tdiv 1000000000)) * 1000000000   -- time.Unix(fromNs/1e9, 0)
-    let toT := (wrap (toNs.tdiv 1000000000)) * 1000000000
+    let fromT := fromNs   -- time.Unix(0, fromNs): the window keeps its sub-second part (A25 fix)
+    let toT := toNs
     let step := wrap (stepMs * 1000000)
     if pl.matrix = false then
       (if db.mainFails then .err5xx else .result)
@@ -463,4 +464,4 @@ def tempoTrace (t : TraceReq) : Resp :=
   | .ok false => .err5xx
   | .ok true => if t.queryFails then .err5xx else .result
 
-end Qryn.Read
+end Qryn.ReadSide
